@@ -303,6 +303,8 @@ class Normaliser:
             self._simplify_conds(fn.body)
             self._stmt_list_rewrite(fn, fn.body, depth)
             self._eor = saved
+            if depth == 0:
+                self._drop_dead_closures(fn)
         self.state[id(fn)] = "done"
         return True
 
@@ -959,6 +961,8 @@ class Normaliser:
     def _callee_of(self, fn, call, depth):
         """the repo helper a call may be replaced by, or None"""
         call = strip(call)
+        if call is not None and call.get("k") == "OpCall" and call.get("op") == "()" and call.get("ccls") == "<lambda>":
+            return self._lambda_callee(fn, call, depth)
         if call is None or call.get("k") not in ("Call", "MCall") or depth >= self.max_depth:
             return None
         name = call.get("n") or (call.get("callee") or "").rsplit("::", 1)[-1]
@@ -998,10 +1002,79 @@ class Normaliser:
             return None
         return callee
 
+    def _drop_dead_closures(self, fn):
+        """closure objects (locals / inlined callable parameters initialised with a lambda expression) all of whose calls were replaced by the
+        lambda's body are not used any more: their declarations are removed"""
+        used = {}
+        for n in walk(fn.body):
+            if n.get("k") == "Ref" and n.get("d") is not None:
+                used[n["d"]] = used.get(n["d"], 0) + 1
+
+        def is_closure_decl(st):
+            if st.get("k") != "Decl" or len(st.get("vars", [])) != 1:
+                return False
+            v = st["vars"][0]
+            init = strip(v.get("init"))
+            for _ in range(3):
+                if init is not None and init.get("k") in ("Construct", "TempObj", "Call") and len(init.get("a", [])) == 1:
+                    init = strip(init["a"][0])
+            if init is None:
+                return False
+            if init.get("k") == "Ref" and init.get("dk") == "local" and not used.get(v["d"]):
+                return "alias"
+            return init.get("k") == "Lambda" and not used.get(v["d"])
+        changed = True
+        while changed:
+            changed = False
+            for b in [x for x in walk(fn.body) if x.get("k") == "Block"]:
+                keep = []
+                for st in b.get("s", []):
+                    r = is_closure_decl(st)
+                    if r is True or (r == "alias" and st["vars"][0].get("inlined_param")):
+                        changed = True
+                        for n in walk(st):
+                            if n.get("k") == "Ref" and n.get("d") in used:
+                                used[n["d"]] -= 1
+                        continue
+                    keep.append(st)
+                b["s"] = keep
+
+    def _lambda_callee(self, fn, call, depth):
+        """call of a closure whose lambda expression is written in fn itself (possibly handed through inlined helpers as a callable parameter):
+        the call operator, if its body can be spliced (captures by reference / this / of never-modified variables: reading them at the call site is the same)"""
+        if depth >= self.max_depth + 2:
+            return None
+        lam = [n for n in self._orig.get(id(fn), []) if n.get("k") == "Lambda" and n.get("op_decl") is not None and n.get("op_decl") == call.get("cdecl")]
+        if len(lam) != 1:
+            return None
+        decls, muts = self._single_assigned(fn)
+        for c in lam[0].get("captures", []) or []:
+            if not c.get("byref") and c.get("n") != "this" and c.get("d") in muts:
+                return None
+        if not hasattr(self, "_bydecl"):
+            self._bydecl = {}
+            for lst in self.findex.by_full.values():
+                for f in lst:
+                    if f.d.get("decl") is not None:
+                        self._bydecl.setdefault((id(f.facts), f.d["decl"]), f)
+        callee = self._bydecl.get((id(fn.facts), call.get("cdecl")))
+        if callee is None or callee.body is None or callee.body.get("k") != "Block" or self.state.get(id(callee)) == "busy":
+            return None
+        if len(call.get("a", [])) - 1 != len(callee.params):
+            return None
+        rets = [x for x in walk(callee.body, prune=lambda y: y.get("k") == "Lambda") if x.get("k") == "Return"]
+        stmts = callee.body.get("s", [])
+        if len(rets) > 1 or (rets and (not stmts or stmts[-1] is not rets[0])):
+            return None
+        return callee
+
     def _splice(self, fn, call, callee, depth, result=None):
         """-> (statements, returned expression | None).  `result`: ('assign', Ref node of the receiving local) | ('decl', Var node) | None"""
         self.apply(callee, depth + 1)
         call = strip(call)
+        if call.get("k") == "OpCall" and call.get("op") == "()":
+            call = dict(call)
+            call["a"] = call.get("a", [])[1:]          # a[0] is the closure object
         line = call.get("l")
         cross = callee.facts is not fn.facts
         tmap = (lambda t: self._tid(fn, callee.type(t))) if cross else None
@@ -1081,7 +1154,7 @@ class Normaliser:
             return None
         k = e.get("k")
         line = e.get("l")
-        if k in ("Call", "MCall"):
+        if k in ("Call", "MCall") or (k == "OpCall" and e.get("op") == "()"):
             callee = self._callee_of(fn, e, depth)
             if callee is None:
                 return None
